@@ -1,10 +1,43 @@
 //! Case kinds of group `registry` (facade-level, K1-K5). `run` returns None for case kinds it does
 //! not know. Owned by the `registry` group; other files need not change when kinds are added here.
+//!
+//!   nc  <namehex>            name_change(name)                      -> OK <hex>
+//!   hc  <namehex>            hostname_change(name)                  -> OK <hex>
+//!   cmp <rec> <rec>          DnsRecordExt::compare / rrdata_match   -> OK <-1|0|1> <0|1>
+//!                            (rec in k1::parse_rec syntax)
+//!   sim <history json>       one simulated-daemon history (same as `harness sim`), so that a
+//!                            property can mix component cases and histories in one run
 #[allow(unused_imports)]
 use crate::util::*;
 #[allow(unused_imports)]
 use mdns_sd::verif_hooks as vh;
 
-pub fn run(_t: &[&str]) -> Option<String> {
-    None
+pub fn run(t: &[&str]) -> Option<String> {
+    match t[0] {
+        "nc" | "hc" => {
+            if t.len() != 2 {
+                return Some("BADCASE".into());
+            }
+            let Some(s) = unhex_str(t[1]) else { return Some("SKIP".into()) };
+            let r = if t[0] == "nc" { vh::name_change(&s) } else { vh::hostname_change(&s) };
+            Some(format!("OK {}", hex(r.as_bytes())))
+        }
+        "cmp" => {
+            if t.len() != 3 {
+                return Some("BADCASE".into());
+            }
+            let (Some(a), Some(b)) = (crate::k1::parse_rec(t[1]), crate::k1::parse_rec(t[2])) else {
+                return Some("SKIP".into());
+            };
+            match vh::rel(&a, &b) {
+                Some((_m, rm, c, _s)) => Some(format!("OK {} {}", c, rm as u8)),
+                None => Some("SKIP".into()),
+            }
+        }
+        "sim" => {
+            let line = t[1..].join(" ");
+            Some(crate::sim::run_history(&line))
+        }
+        _ => None,
+    }
 }
